@@ -58,6 +58,8 @@ class ConcreteProvider:
 
     def unit_quat(self, name):
         names = [name + "_" + c for c in "xyzw"]
+        if all(n in self.inputs for n in names):
+            return [self.inputs[n] for n in names]
         if all(n in self.given for n in names):
             q = [float(self.given[n]) for n in names]
         else:
@@ -203,3 +205,9 @@ class ConcreteProvider:
 
     def const(self, x):
         return float(x)
+
+    def same_truth(self, a, b):
+        return bool(a) == bool(b)
+
+    def is_boolean(self, x):
+        return isinstance(x, (bool, np.bool_))
